@@ -806,3 +806,47 @@ Proof.
   intros c s now T. simpl. destruct now; auto. unfold terminal in T. unfold master_step.
   destruct (mp s); try discriminate; reflexivity.
 Qed.
+
+(* ================= every reachable state can be driven to a terminal state ================= *)
+Lemma reachable_step : forall c e0 st0 clk s tid now s',
+  reachable c e0 st0 clk s -> step c s tid now = Some s' -> reachable c e0 st0 clk s'.
+Proof.
+  intros c e0 st0 clk s tid now s' [sched R] H. exists (sched ++ [(tid, now)]).
+  rewrite run_app, R. simpl. rewrite H. reflexivity.
+Qed.
+
+Lemma tinv_reachable : forall c e0 st0 clk s, wf_cfg c -> reachable c e0 st0 clk s -> tinv c s.
+Proof.
+  intros c e0 st0 clk s (ord & O & ND & IN & _ & _ & W) [sched H].
+  eapply (run_ind_inv c (tinv c) (tinv_step c)); [|exact H].
+  split; [apply cinv_init; auto|]. unfold L, init; simpl. rewrite O.
+  destruct (Nat.eqb _ _); [destruct ord|]; simpl; rewrite ?O;
+    rewrite <- (wf_length c _ ND IN); simpl; lia.
+Qed.
+
+Lemma can_complete : forall c e0 st0 clk s,
+  wf_cfg_or_cyclic c -> junk_free e0 -> reachable c e0 st0 clk s ->
+  exists sched s', run c s sched = Some s' /\ terminal s' = true.
+Proof.
+  intros c e0 st0 clk s Hc J R.
+  destruct Hc as [Hwf|Hcy].
+  - remember (pot c s) as n eqn:En. assert (Hn : pot c s <= n) by lia. clear En.
+    revert s R Hn. induction n as [|n IH]; intros s R Hn.
+    + destruct (no_deadlock_step c e0 st0 clk s (or_introl Hwf) J R) as [T|(tid & now & s1 & St)].
+      * exists [], s; split; auto.
+      * pose proof (pot_step _ _ _ _ _ (tinv_reachable _ _ _ _ _ Hwf R) St). lia.
+    + destruct (no_deadlock_step c e0 st0 clk s (or_introl Hwf) J R) as [T|(tid & now & s1 & St)].
+      * exists [], s; split; auto.
+      * pose proof (pot_step _ _ _ _ _ (tinv_reachable _ _ _ _ _ Hwf R) St).
+        destruct (IH s1 (reachable_step _ _ _ _ _ _ _ _ R St) ltac:(lia)) as (sched & s' & Rn & T).
+        exists ((tid, now) :: sched), s'. split; auto. simpl. rewrite St. exact Rn.
+  - exists [], s; split; auto.
+    destruct (no_deadlock c e0 st0 clk s (or_intror Hcy) J R) as [T|(tid & Ht & En)]; auto.
+    exfalso. destruct Hcy as [O W].
+    pose proof (cinv_reachable _ _ _ _ _ W R) as CI.
+    pose proof (ci_raised _ _ CI) as RI. apply RI in O.
+    pose proof (ci_spawn _ _ CI) as SI. unfold spawn_inv in SI. rewrite O in SI.
+    destruct tid as [|w]; unfold enabled in En; simpl in En.
+    + unfold master_op in En. rewrite O in En. discriminate.
+    + unfold worker_op in En. destruct SI as [_ B]. rewrite (B w) in En by lia. discriminate.
+Qed.
